@@ -26,7 +26,7 @@ open PyGen.decoder PyGen.decoder.generate_bufr_message in
     `info_only`, `continue_on_error` and `filter_expr` (`None`, `''`, or an expression whose `ScriptRunner` object is
     `sr`), and ALL callbacks `env` (`decoder.process`, `sr.run`, which exceptions are `PyBufrKitError`s) that satisfy
     `CbOk` (`length.value ≥ 0`; the table-definition side effect does not raise), with
-    `r = scan (decOf env) (cfgOf env info_only continue_on_error filter_expr sr) s`:
+    `r = scan (srcDec env) (srcCfg env info_only continue_on_error filter_expr sr) s`:
       * `r.2 = done`   : the generator yields exactly the messages of `r.1` (in info-only mode with `serialized_bytes`
                           replaced by the slice of the stream) and is exhausted;
       * `r.2 = error e`: it yields those messages, then an exception `x` of the model's class `e` leaves it
@@ -38,7 +38,7 @@ open PyGen.decoder PyGen.decoder.generate_bufr_message in
 theorem C11_src_generate_eq (env : Env) (hcb : CbOk env) (s : Bytes) (info_only continue_on_error : Bool)
     (filter_expr : Option (List Char)) (sr : Py.Obj)
     (hsr : filter_expr.isSome = true → env.ScriptRunner filter_expr = .ok sr) :
-    Agrees env info_only (scan (decOf env) (cfgOf env info_only continue_on_error filter_expr sr) s)
+    Agrees env info_only (scan (srcDec env) (srcCfg env info_only continue_on_error filter_expr sr) s)
       (generate_bufr_message env s info_only continue_on_error filter_expr) :=
   generate_sim env hcb s info_only continue_on_error filter_expr sr hsr
 
@@ -47,9 +47,9 @@ open PyGen.decoder PyGen.decoder.generate_bufr_message in
 theorem C11_src_generate_done (env : Env) (hcb : CbOk env) (s : Bytes) (info_only continue_on_error : Bool)
     (filter_expr : Option (List Char)) (sr : Py.Obj)
     (hsr : filter_expr.isSome = true → env.ScriptRunner filter_expr = .ok sr)
-    (hd : (scan (decOf env) (cfgOf env info_only continue_on_error filter_expr sr) s).2 = .done) :
+    (hd : (scan (srcDec env) (srcCfg env info_only continue_on_error filter_expr sr) s).2 = .done) :
     generate_bufr_message env s info_only continue_on_error filter_expr =
-      (yieldsOf info_only (scan (decOf env) (cfgOf env info_only continue_on_error filter_expr sr) s).1, .ok ()) := by
+      (yieldsOf info_only (scan (srcDec env) (srcCfg env info_only continue_on_error filter_expr sr) s).1, .ok ()) := by
   have h := C11_src_generate_eq env hcb s info_only continue_on_error filter_expr sr hsr
   simp only [Agrees, hd] at h
   exact h
